@@ -122,7 +122,9 @@ func JudgeC16(c *Ctx, h *History, obs []*Obs) ([]Violation, error) {
 		// validity of the inputs: from the spec when the history has one (independent of
 		// goverter), else from the clean-tree reference
 		sfx := ""
-		if lacksPackageClause(o, tags) {
+		if g.FileAge != "fresh" && lacksPackageClause(o, tags) {
+			// F9 needs the settled regime (go command reading through its module index);
+			// in the fresh regime the same state must recover
 			sfx = "/stale-output-without-package-clause"
 			c.Stats.Add("c16.gens_over_output_without_package_clause", 1)
 		}
